@@ -1,6 +1,1480 @@
-//! Monitor for C36 (see /verif/DESIGN.md §5 C36).
-use vcommon::Args;
+//! Monitor for C36 "Timelocked instructions run only as approved, after the delay"
+//! (see /verif/DESIGN.md §5 C36).
+//!
+//! Random histories over a few instruction buffers / approvers / executors run against the real
+//! `gmsol_timelock` + `gmsol_store` entrypoints in `hostsvm`. A small reference automaton per buffer
+//! (`Created → Approved{at, by} → Executed | Cancelled`), a role model and the observed config delay
+//! decide every operation:
+//!
+//! * `execute_instruction` succeeded ⇒ the buffer was approved, the approver still holds
+//!   `__TLD_<executor role>`, `now ≥ approved_at + delay` (the program's comparison), the buffer had
+//!   not been executed / cancelled, and the CPI the runtime saw (program id, metas with flags, data)
+//!   equals what was buffered, with no signer other than the executor wallet;
+//! * `approve_instruction(s)` succeeded ⇒ not approved before, approver holds the timelocked role of
+//!   *the buffer's* executor;
+//! * `create_instruction_buffer` succeeded ⇒ no signer flag on a non-wallet account, the address was
+//!   not a live buffer, and the stored instruction reads back as submitted;
+//! * the configured delay never decreases (checked after every transaction).
+//!
+//! Failures of the real program are accepted when the model forbids the operation too, or when an
+//! explicitly classified unrelated cause applies (caller lacks TIMELOCK_KEEPER / TIMELOCK_ADMIN,
+//! substituted accounts, the inner instruction itself failed after the CPI was issued). A failure
+//! the model cannot explain is a coverage note (`note_unexpected_*`), never a violation: C36 is a
+//! safety property.
+use crate::world::{self, exchange, pda, timelock::*, World, LAMPORTS, STORE_PID};
+use anchor_lang::{
+    prelude::*,
+    solana_program::{instruction::Instruction, system_instruction},
+    system_program,
+};
+use hostsvm::{key, TxError, TxMeta};
+use std::collections::{BTreeMap, BTreeSet};
+use vcommon::{json, serde_json::Value, Args, Monitor, Rng};
 
-pub fn run(_args: &Args) -> Option<i32> {
-    None
+const EXEC_ROLES: [&str; 3] = ["ADMIN", "CONFIG_KEEPER", "FEATURE_KEEPER"];
+const AMOUNT_KEYS: [&str; 5] = [
+    "claimable_time_window",
+    "recent_time_window",
+    "request_expiration",
+    "oracle_max_age",
+    "adl_prices_max_staleness",
+];
+const FACTOR_KEYS: [&str; 3] = ["oracle_ref_price_deviation", "order_fee_discount_for_referred_user", "max_builder_fee_factor"];
+const DOMAINS: [&str; 6] = ["market-swap", "market-increase", "deposit", "withdrawal", "shift", "glv-deposit"];
+const ACTIONS: [&str; 5] = ["default", "create", "update", "execute", "cancel"];
+const MAX_LIVE: usize = 7;
+
+const RULE: &str = "histories: per shard, independent worlds (store + timelock bootstrapped through real instructions; \
+mode A = store authority is the ADMIN executor wallet, mode B = authority handed back to the admin through a real timelocked \
+transfer) run ~150 random ops (create / approve / approve-many / cancel / cancel-many / execute incl. substituted accounts / \
+increase_delay / role grant-revoke-disable-enable / bypass revoke / clock warps aimed at approved_at+delay-1 and exactly \
+approved_at+delay) over <=7 live buffers, 3 executors, 4 approvers, instruction shapes = store instructions (insert_amount, \
+insert_factor, toggle_feature, grant/revoke/enable/disable role), system transfer, garbage data, unknown program, with extra \
+accounts, duplicated wallet, flipped writable flags, missing or foreign signer flags, truncated account lists. \
+An op is non-trivial when the oracle decided it on a live question of the property: an execution that succeeded (CPI compared), \
+an execution/approval/creation denied for a model reason (not approved, too early, approver lost role, already executed/cancelled, \
+approved twice, approver without role, foreign signer flag), a cancel followed by a refused execute, a delay increase. \
+distinct = hash of (op, outcome class, reason, shape label, boundary class (exact / one second early / other), regrant flag, mode).";
+
+#[derive(Clone, Debug, PartialEq)]
+enum BState {
+    Created,
+    Approved { at: i64, by: Pubkey },
+    Executed,
+    Cancelled,
+}
+
+#[derive(Clone, Debug)]
+enum Effect {
+    None,
+    Grant(Pubkey, String),
+    Revoke(Pubkey, String),
+    Enable(String),
+    Disable(String),
+}
+
+#[derive(Clone, Debug)]
+struct Buf {
+    key: Pubkey,
+    exec: usize,
+    creator: Pubkey,
+    /// Exactly what was buffered: program, metas (signer flags from `signers`, writable flags as the
+    /// create transaction's message carried them), data.
+    expected: Instruction,
+    state: BState,
+    effect: Effect,
+    shape: String,
+    /// The approver did not hold the role at some point after approval.
+    lost_role_since_approve: bool,
+}
+
+#[derive(Clone, Debug, Default)]
+struct RoleModel {
+    enabled: BTreeSet<String>,
+    grants: BTreeSet<(Pubkey, String)>,
+}
+
+impl RoleModel {
+    fn holds(&self, user: &Pubkey, role: &str) -> bool {
+        self.enabled.contains(role) && self.grants.contains(&(*user, role.to_string()))
+    }
+}
+
+#[derive(Clone, Copy, Debug, PartialEq)]
+enum ExecVariant {
+    Normal,
+    AltConfig,
+    AltStore,
+    WrongExecutor,
+    WrongRentReceiver,
+    MissingRemaining,
+}
+
+struct Hist<'a> {
+    w: World,
+    t: TimelockActors,
+    store: Pubkey,
+    alt_store: Pubkey,
+    alt: TimelockActors,
+    mode_b: bool,
+    roles: RoleModel,
+    bufs: Vec<Buf>,
+    by_addr: BTreeMap<Pubkey, usize>,
+    delay_seen: u32,
+    approvers: Vec<Pubkey>,
+    stranger: Pubkey,
+    log: Vec<String>,
+    rng: Rng,
+    m: &'a mut Monitor,
+    ident: (u64, u64, u64),
+    n_addr: u64,
+    shape_hashes: BTreeSet<u64>,
+    broken: bool,
+}
+
+fn hex(b: &[u8]) -> String {
+    b.iter().map(|x| format!("{x:02x}")).collect()
+}
+
+fn ix_json(i: &Instruction) -> Value {
+    json!({
+        "program": i.program_id.to_string(),
+        "accounts": i.accounts.iter().map(|m| format!("{}{}{}", m.pubkey, if m.is_signer {":s"} else {""}, if m.is_writable {":w"} else {""})).collect::<Vec<_>>(),
+        "data": hex(&i.data),
+    })
+}
+
+fn err_class(e: &TxError) -> String {
+    match e {
+        TxError::Program(p) => match e.custom_code() {
+            Some(c) => format!("custom:{c}"),
+            None => format!("program:{p:?}"),
+        },
+        TxError::Panic(_) => "panic".into(),
+        TxError::Runtime(s) => format!("runtime:{}", s.split([' ', ':']).next().unwrap_or("")),
+    }
+}
+
+fn is_program_key(k: &Pubkey) -> bool {
+    *k == STORE_PID
+        || *k == TL_PID
+        || *k == gmsol_treasury::ID
+        || *k == gmsol_competition::ID
+        || *k == gmsol_liquidity_provider::ID
+        || *k == gmsol_callback::ID
+        || *k == gmsol_mock_chainlink_verifier::ID
+}
+
+/// Writable flag an account carries in a single-instruction transaction's message: writable if any
+/// reference marks it writable or it is the fee payer; program accounts are demoted.
+fn message_writable(ixn: &Instruction, fee_payer: &Pubkey, k: &Pubkey) -> bool {
+    (k == fee_payer || ixn.accounts.iter().any(|m| m.pubkey == *k && m.is_writable)) && !is_program_key(k)
+}
+
+impl<'a> Hist<'a> {
+    fn now(&self) -> i64 {
+        self.w.svm.clock.unix_timestamp
+    }
+
+    fn role_of(&self, exec: usize) -> &'static str {
+        EXEC_ROLES[exec]
+    }
+
+    fn tld(&self, exec: usize) -> String {
+        timelocked_role(EXEC_ROLES[exec])
+    }
+
+    fn witness(&self, detail: Value) -> Value {
+        let n = self.log.len();
+        let from = n.saturating_sub(80);
+        json!({
+            "seed": self.ident.0,
+            "shard": self.ident.1,
+            "history": self.ident.2,
+            "mode": if self.mode_b { "B(admin authority restored)" } else { "A(wallet authority)" },
+            "ops_so_far": n,
+            "op_log_tail": self.log[from..].to_vec(),
+            "detail": detail,
+            "replay": format!("VERIF_SEED={} store-mon C36 --tier {} --shard {} --history {}", self.ident.0, self.m.tier.as_str(), self.ident.1, self.ident.2),
+        })
+    }
+
+    fn violation(&mut self, sig: &str, detail: Value) {
+        let w = self.witness(detail);
+        self.m.violation(sig, w);
+    }
+
+    fn nontrivial(&mut self, parts: &[&str]) {
+        let mut s = parts.join("|");
+        s.push(if self.mode_b { 'B' } else { 'A' });
+        self.m.nontrivial(s.as_bytes());
+    }
+
+    /// After every transaction: the configured delay must never decrease; role model cross-check.
+    fn post_tx(&mut self) {
+        match read_delay(&self.w.svm, &self.t.timelock_config) {
+            Some(d) => {
+                if d < self.delay_seen {
+                    let before = self.delay_seen;
+                    self.violation("C36:delay:decreased", json!({"before": before, "after": d}));
+                }
+                self.delay_seen = d;
+            }
+            None => {
+                self.m.inconclusive("timelock config unreadable");
+                self.broken = true;
+            }
+        }
+    }
+
+    fn cross_check_roles(&mut self) {
+        let Some(s) = exchange::load::<gmsol_store::states::Store>(&self.w.svm, &self.store) else {
+            self.m.inconclusive("store unreadable");
+            self.broken = true;
+            return;
+        };
+        let mut users = self.approvers.clone();
+        users.extend([self.t.tl_admin, self.t.tl_keeper, self.stranger]);
+        let mut roles: Vec<String> = (0..EXEC_ROLES.len()).map(|e| self.tld(e)).collect();
+        roles.extend([TIMELOCK_ADMIN.to_string(), TIMELOCK_KEEPER.to_string()]);
+        for u in &users {
+            for r in &roles {
+                let real = s.role().has_role(u, r).unwrap_or(false);
+                if real != self.roles.holds(u, r) {
+                    self.m.inconclusive(&format!("harness: role model disagrees with the store for ({u}, {r}): store={real}"));
+                    self.broken = true;
+                    return;
+                }
+            }
+        }
+    }
+
+    /// Role model changed: note approved buffers whose approver no longer holds the role.
+    fn after_role_change(&mut self) {
+        let mut lost = 0;
+        for i in 0..self.bufs.len() {
+            if let BState::Approved { by, .. } = self.bufs[i].state {
+                let r = self.tld(self.bufs[i].exec);
+                if !self.roles.holds(&by, &r) && !self.bufs[i].lost_role_since_approve {
+                    self.bufs[i].lost_role_since_approve = true;
+                    lost += 1;
+                }
+            }
+        }
+        if lost > 0 {
+            self.m.add("role_revocations_between_approve_and_execute", lost);
+        }
+        self.cross_check_roles();
+    }
+
+    fn apply_effect(&mut self, e: &Effect) {
+        match e {
+            Effect::None => return,
+            Effect::Grant(u, r) => {
+                self.roles.grants.insert((*u, r.clone()));
+            }
+            Effect::Revoke(u, r) => {
+                self.roles.grants.remove(&(*u, r.clone()));
+            }
+            Effect::Enable(r) => {
+                self.roles.enabled.insert(r.clone());
+            }
+            Effect::Disable(r) => {
+                self.roles.enabled.remove(r);
+            }
+        }
+        self.after_role_change();
+    }
+
+    fn live(&self) -> Vec<usize> {
+        (0..self.bufs.len()).filter(|i| matches!(self.bufs[*i].state, BState::Created | BState::Approved { .. })).collect()
+    }
+
+    fn pick_where(&mut self, f: impl Fn(&Buf) -> bool) -> Option<usize> {
+        let c: Vec<usize> = (0..self.bufs.len()).filter(|i| f(&self.bufs[*i])).collect();
+        if c.is_empty() {
+            None
+        } else {
+            Some(c[self.rng.below(c.len() as u64) as usize])
+        }
+    }
+
+    fn anyone(&mut self) -> Pubkey {
+        let mut v = self.approvers.clone();
+        v.extend([self.t.tl_admin, self.t.tl_keeper, self.stranger]);
+        *self.rng.pick(&v)
+    }
+
+    // --------------------------------------------------------------------------------------------
+    // Shapes
+
+    fn gen_shape(&mut self, exec: usize) -> (Instruction, Effect, String) {
+        let wallet = self.t.wallets[exec];
+        let store = self.store;
+        let kind = self.rng.weighted(&[70, 10, 8, 4, 8]);
+        let (mut ixn, effect, mut label) = match kind {
+            0 => match exec {
+                0 => {
+                    let e = self.rng.below(EXEC_ROLES.len() as u64) as usize;
+                    let role = self.tld(e);
+                    let user = *self.rng.pick(&self.approvers.clone());
+                    let holds = self.roles.grants.contains(&(user, role.clone()));
+                    let c = self.rng.below(100);
+                    if self.mode_b || c < 80 {
+                        // In mode B the wallet is not the store authority (inner call refuses).
+                        if holds != self.rng.chance(1, 8) {
+                            (revoke_role_ix(wallet, store, user, &role), Effect::Revoke(user, role), "revoke_role".to_string())
+                        } else {
+                            (grant_role_ix(wallet, store, user, &role), Effect::Grant(user, role), "grant_role".to_string())
+                        }
+                    } else if e != 0 && self.roles.enabled.contains(&role) && c < 90 {
+                        (disable_role_ix(wallet, store, &role), Effect::Disable(role), "disable_role".to_string())
+                    } else {
+                        (enable_role_ix(wallet, store, &role), Effect::Enable(role), "enable_role".to_string())
+                    }
+                }
+                1 => {
+                    if self.rng.chance(2, 3) {
+                        let k = *self.rng.pick(&AMOUNT_KEYS);
+                        let a = self.rng.biased_u64(u64::MAX, 3600);
+                        (insert_amount_ix(wallet, store, k, a), Effect::None, "insert_amount".to_string())
+                    } else {
+                        let k = *self.rng.pick(&FACTOR_KEYS);
+                        let f = self.rng.biased_u128(world::UNIT, world::UNIT / 100);
+                        (insert_factor_ix(wallet, store, k, f), Effect::None, "insert_factor".to_string())
+                    }
+                }
+                _ => {
+                    let d = *self.rng.pick(&DOMAINS);
+                    let a = *self.rng.pick(&ACTIONS);
+                    let en = self.rng.bool();
+                    (toggle_feature_ix(wallet, store, d, a, en), Effect::None, "toggle_feature".to_string())
+                }
+            },
+            1 => {
+                let dest = *self.rng.pick(&self.approvers.clone());
+                let lamports = self.rng.range(1, 5000);
+                (system_instruction::transfer(&wallet, &dest, lamports), Effect::None, "system_transfer".to_string())
+            }
+            2 => {
+                let n = self.rng.below(48) as usize;
+                let data = self.rng.bytes(n);
+                (
+                    Instruction { program_id: STORE_PID, accounts: vec![AccountMeta::new(wallet, true), AccountMeta::new(store, false)], data },
+                    Effect::None,
+                    "garbage_data".to_string(),
+                )
+            }
+            3 => {
+                let n = self.rng.below(16) as usize;
+                let data = self.rng.bytes(n);
+                (
+                    Instruction { program_id: key("c36:unknown-program"), accounts: vec![AccountMeta::new(wallet, true)], data },
+                    Effect::None,
+                    "unknown_program".to_string(),
+                )
+            }
+            _ => {
+                // A store instruction signed by a *different* executor's wallet (foreign signer flag).
+                let other = (exec + 1 + self.rng.below(2) as usize) % EXEC_ROLES.len();
+                let ow = self.t.wallets[other];
+                let k = *self.rng.pick(&AMOUNT_KEYS);
+                (insert_amount_ix(ow, store, k, self.rng.below(1000)), Effect::None, "foreign_wallet_signer".to_string())
+            }
+        };
+        // Modifiers.
+        if self.rng.chance(1, 3) {
+            let n = self.rng.range(1, 3);
+            for _ in 0..n {
+                let pool = [self.approvers[0], self.approvers[1], self.t.tl_keeper, self.t.tl_admin, store, key("c36:extra-a"), key("c36:extra-b"), self.t.wallets[(exec + 1) % 3]];
+                let k = *self.rng.pick(&pool);
+                ixn.accounts.push(AccountMeta { pubkey: k, is_signer: false, is_writable: self.rng.bool() });
+            }
+            label.push_str("+extra");
+        }
+        if self.rng.chance(1, 14) {
+            ixn.accounts.push(AccountMeta { pubkey: wallet, is_signer: self.rng.bool(), is_writable: self.rng.bool() });
+            label.push_str("+dupwallet");
+        }
+        if self.rng.chance(1, 12) {
+            let i = self.rng.below(ixn.accounts.len() as u64) as usize;
+            if !is_program_key(&ixn.accounts[i].pubkey) {
+                ixn.accounts[i].is_writable = !ixn.accounts[i].is_writable;
+                label.push_str("+flipw");
+            }
+        }
+        if self.rng.chance(1, 12) {
+            for m in ixn.accounts.iter_mut() {
+                m.is_signer = false;
+            }
+            label.push_str("+nosign");
+        }
+        if self.rng.chance(1, 9) {
+            // Signer flag on an account that is not this executor's wallet.
+            let c: Vec<usize> = (0..ixn.accounts.len()).filter(|i| ixn.accounts[*i].pubkey != wallet).collect();
+            if !c.is_empty() && self.rng.chance(2, 3) {
+                let i = c[self.rng.below(c.len() as u64) as usize];
+                ixn.accounts[i].is_signer = true;
+            } else {
+                let pool = [self.t.tl_keeper, self.t.tl_admin, self.approvers[0], self.t.wallets[(exec + 2) % 3]];
+                let k = *self.rng.pick(&pool);
+                ixn.accounts.push(AccountMeta { pubkey: k, is_signer: true, is_writable: self.rng.bool() });
+            }
+            label.push_str("+badsign");
+        }
+        (ixn, effect, label)
+    }
+
+    // --------------------------------------------------------------------------------------------
+    // Ops
+
+    fn op_create(&mut self) {
+        let exec = self.rng.below(EXEC_ROLES.len() as u64) as usize;
+        let (intended, effect, mut label) = self.gen_shape(exec);
+        let mut args = CreateBufferArgs::from_instruction(&intended);
+        if self.rng.chance(1, 16) && args.num_accounts > 1 {
+            args.num_accounts = self.rng.range(1, args.num_accounts as u64 - 1) as u16;
+            label.push_str("+trunc");
+        }
+        if self.rng.chance(1, 30) {
+            args.num_accounts += self.rng.range(1, 3) as u16;
+            label.push_str("+toomany");
+        }
+        if self.rng.chance(1, 30) {
+            args.data_len = if self.rng.bool() { args.data_len + 1 } else { args.data_len.saturating_sub(1) };
+            label.push_str("+badlen");
+        }
+        if self.rng.chance(1, 20) {
+            // Signer index outside the buffered list (ignored by the program, harmless).
+            args.signers.push(args.num_accounts + self.rng.below(3) as u16);
+            label.push_str("+oobsigner");
+        }
+        let creator = match self.rng.below(100) {
+            0..=79 => self.t.tl_keeper,
+            80..=87 => self.t.tl_admin,
+            88..=93 => self.stranger,
+            _ => *self.rng.pick(&self.approvers.clone()),
+        };
+        // Address: fresh, or a previously used one (closed or live).
+        let address = if !self.bufs.is_empty() && self.rng.chance(1, 7) {
+            let i = self.rng.below(self.bufs.len() as u64) as usize;
+            self.bufs[i].key
+        } else {
+            self.n_addr += 1;
+            key(&format!("c36:buffer:{}:{}:{}", self.ident.1, self.ident.2, self.n_addr))
+        };
+        let executor = self.t.executors[exec];
+        let wallet = self.t.wallets[exec];
+        let ixn = tl_create_buffer_ix(creator, self.store, executor, address, intended.program_id, &args);
+        // What is being buffered, as the message carries it.
+        let n = (args.num_accounts as usize).min(args.remaining.len());
+        let expected = Instruction {
+            program_id: intended.program_id,
+            accounts: args.remaining[..n]
+                .iter()
+                .enumerate()
+                .map(|(i, m)| AccountMeta {
+                    pubkey: m.pubkey,
+                    is_signer: args.signers.contains(&(i as u16)),
+                    is_writable: message_writable(&ixn, &creator, &m.pubkey),
+                })
+                .collect(),
+            data: args.data.clone(),
+        };
+        let bad_signer = expected.accounts.iter().any(|m| m.is_signer && m.pubkey != wallet);
+        let live_addr = self.w.svm.get(&address).is_some();
+        let creator_ok = self.roles.holds(&creator, TIMELOCK_KEEPER);
+        let args_ok = args.data_len as usize == args.data.len() && args.num_accounts as usize <= args.remaining.len();
+        self.log.push(format!(
+            "create buffer={address} exec={} creator={creator} shape={label} num_accounts={} data_len={} signers={:?} ix={}",
+            EXEC_ROLES[exec],
+            args.num_accounts,
+            args.data_len,
+            args.signers,
+            ix_json(&intended)
+        ));
+        let r = self.w.send(&[ixn], &[creator, address]);
+        self.m.eval();
+        match r {
+            Ok(_) => {
+                self.log.push("  -> ok".into());
+                let mut flagged = false;
+                if bad_signer {
+                    flagged = true;
+                    self.violation("C36:create:non_wallet_signer_accepted", json!({"buffer": address.to_string(), "expected": ix_json(&expected), "wallet": wallet.to_string()}));
+                }
+                if live_addr {
+                    flagged = true;
+                    self.violation("C36:create:overwrote_existing_account", json!({"buffer": address.to_string()}));
+                }
+                match read_buffer(&self.w.svm, &address) {
+                    Some(v) => {
+                        if v.instruction != expected || v.executor != executor {
+                            flagged = true;
+                            self.violation(
+                                "C36:create:stored_instruction_differs",
+                                json!({"buffer": address.to_string(), "submitted": ix_json(&expected), "stored": ix_json(&v.instruction), "stored_executor": v.executor.to_string()}),
+                            );
+                        }
+                        if v.approved_at.is_some() || v.approver.is_some() {
+                            flagged = true;
+                            self.violation("C36:create:born_approved", json!({"buffer": address.to_string()}));
+                        }
+                    }
+                    None => {
+                        self.m.inconclusive("created buffer unreadable");
+                        self.broken = true;
+                    }
+                }
+                let _ = flagged;
+                self.m.count("create_ok");
+                if !creator_ok {
+                    self.m.count("note_create_ok_by_non_keeper(out of scope: C19)");
+                }
+                self.m.count(&format!("shape_created:{label}"));
+                let h = vcommon::rng::fnv(format!("{}|{:?}|{}", expected.program_id, expected.accounts.iter().map(|m| (m.is_signer, m.is_writable)).collect::<Vec<_>>(), hex(&expected.data)).as_bytes());
+                self.shape_hashes.insert(h);
+                self.bufs.push(Buf { key: address, exec, creator, expected, state: BState::Created, effect, shape: label, lost_role_since_approve: false });
+                self.by_addr.insert(address, self.bufs.len() - 1);
+            }
+            Err((e, _)) => {
+                self.log.push(format!("  -> err {}", err_class(&e)));
+                if bad_signer {
+                    self.m.count("create_rejected_foreign_signer");
+                    self.nontrivial(&["create_rejected_foreign_signer", &label]);
+                } else if live_addr {
+                    self.m.count("create_rejected_address_in_use");
+                } else if !creator_ok {
+                    self.m.count("create_denied_not_keeper");
+                } else if !args_ok {
+                    self.m.count("create_rejected_bad_lengths");
+                } else {
+                    self.m.count("note_unexpected_create_failure");
+                    self.m.count(&format!("note_unexpected_create_failure:{}", err_class(&e)));
+                    if self.m.wants_sample() {
+                        let s = self.witness(json!({"unexpected_create_failure": err_class(&e), "shape": label}));
+                        self.m.sample(s);
+                    }
+                }
+            }
+        }
+        self.post_tx();
+    }
+
+    /// Oracle for one successfully approved buffer.
+    fn approved_ok(&mut self, i: usize, approver: Pubkey, how: &str) {
+        let b = self.bufs[i].clone();
+        let tld = self.tld(b.exec);
+        match b.state {
+            BState::Created => {}
+            BState::Approved { at, by } => {
+                self.violation("C36:approve:approved_twice", json!({"buffer": b.key.to_string(), "first_at": at, "first_by": by.to_string(), "second_by": approver.to_string(), "via": how}));
+            }
+            _ => {
+                self.violation("C36:approve:closed_buffer_approved", json!({"buffer": b.key.to_string(), "via": how}));
+            }
+        }
+        if !self.roles.holds(&approver, &tld) {
+            self.violation(
+                "C36:approve:approver_without_role",
+                json!({"buffer": b.key.to_string(), "approver": approver.to_string(), "needed_role": tld, "via": how}),
+            );
+        }
+        let now = self.now();
+        self.bufs[i].state = BState::Approved { at: now, by: approver };
+        self.bufs[i].lost_role_since_approve = false;
+        self.m.count("approve_ok");
+        let shape = b.shape.clone();
+        self.nontrivial(&["approve_ok", how, &shape]);
+    }
+
+    fn approve_deny_reason(&self, i: usize, approver: &Pubkey, role_arg: &str) -> Option<&'static str> {
+        let b = &self.bufs[i];
+        match b.state {
+            BState::Executed | BState::Cancelled => return Some("gone"),
+            BState::Approved { .. } => return Some("already_approved"),
+            BState::Created => {}
+        }
+        if !self.roles.holds(approver, &self.tld(b.exec)) {
+            return Some("approver_without_role");
+        }
+        if role_arg != self.role_of(b.exec) {
+            return Some("role_arg_mismatch");
+        }
+        None
+    }
+
+    fn pick_approver(&mut self, exec: usize) -> Pubkey {
+        let tld = self.tld(exec);
+        let mut all = self.approvers.clone();
+        all.push(self.t.tl_admin);
+        let holders: Vec<Pubkey> = all.iter().copied().filter(|u| self.roles.holds(u, &tld)).collect();
+        if !holders.is_empty() && self.rng.chance(7, 10) {
+            *self.rng.pick(&holders)
+        } else {
+            self.anyone()
+        }
+    }
+
+    fn op_approve(&mut self) {
+        let c = self.rng.below(100);
+        let pick = if c < 72 {
+            self.pick_where(|b| b.state == BState::Created)
+        } else if c < 88 {
+            self.pick_where(|b| matches!(b.state, BState::Approved { .. }))
+        } else {
+            self.pick_where(|b| matches!(b.state, BState::Executed | BState::Cancelled))
+        };
+        let Some(i) = pick.or_else(|| self.pick_where(|_| true)) else { return };
+        let exec = self.bufs[i].exec;
+        let approver = self.pick_approver(exec);
+        let role_arg = if self.rng.chance(9, 10) { EXEC_ROLES[exec] } else { EXEC_ROLES[(exec + 1 + self.rng.below(2) as usize) % 3] };
+        let address = self.bufs[i].key;
+        // A closed address may meanwhile host a newer buffer: the model entry is the latest one.
+        let i = *self.by_addr.get(&address).unwrap_or(&i);
+        let deny = self.approve_deny_reason(i, &approver, role_arg);
+        self.log.push(format!("approve buffer={address} approver={approver} role_arg={role_arg} now={}", self.now()));
+        let ixn = tl_approve_ix(approver, self.store, executor_address(&self.store, role_arg), role_arg, address);
+        let r = self.w.send(&[ixn], &[approver]);
+        self.m.eval();
+        match r {
+            Ok(_) => {
+                self.log.push("  -> ok".into());
+                self.approved_ok(i, approver, "single");
+            }
+            Err((e, _)) => {
+                self.log.push(format!("  -> err {}", err_class(&e)));
+                match deny {
+                    Some(reason) => {
+                        self.m.count(&format!("approve_denied_{reason}"));
+                        let shape = self.bufs[i].shape.clone();
+                        self.nontrivial(&["approve_denied", reason, &shape]);
+                    }
+                    None => {
+                        self.m.count("note_unexpected_approve_failure");
+                        self.m.count(&format!("note_unexpected_approve_failure:{}", err_class(&e)));
+                    }
+                }
+            }
+        }
+        self.post_tx();
+    }
+
+    fn op_approve_many(&mut self) {
+        let live = self.live();
+        if live.is_empty() {
+            return;
+        }
+        let n = self.rng.range(1, 3) as usize;
+        let mut chosen: Vec<usize> = vec![];
+        let first = live[self.rng.below(live.len() as u64) as usize];
+        chosen.push(first);
+        for _ in 1..n {
+            // Prefer same executor and not yet approved, sometimes anything.
+            let fe = self.bufs[first].exec;
+            let c = if self.rng.chance(4, 5) {
+                self.pick_where(|b| b.exec == fe && b.state == BState::Created)
+            } else {
+                self.pick_where(|_| true)
+            };
+            if let Some(c) = c {
+                chosen.push(*self.by_addr.get(&self.bufs[c].key).unwrap_or(&c));
+            }
+        }
+        let exec = self.bufs[first].exec;
+        let role_arg = EXEC_ROLES[exec];
+        let approver = self.pick_approver(exec);
+        let keys: Vec<Pubkey> = chosen.iter().map(|i| self.bufs[*i].key).collect();
+        let dup = keys.iter().collect::<BTreeSet<_>>().len() != keys.len();
+        let mut deny: Option<&'static str> = if dup { Some("duplicate_in_batch") } else { None };
+        for i in &chosen {
+            if deny.is_none() {
+                deny = self.approve_deny_reason(*i, &approver, role_arg);
+            }
+        }
+        self.log.push(format!("approve_many buffers={keys:?} approver={approver} role_arg={role_arg} now={}", self.now()));
+        let ixn = tl_approve_many_ix(approver, self.store, executor_address(&self.store, role_arg), role_arg, &keys);
+        let r = self.w.send(&[ixn], &[approver]);
+        self.m.eval();
+        match r {
+            Ok(_) => {
+                self.log.push("  -> ok".into());
+                for i in chosen {
+                    self.approved_ok(i, approver, "batch");
+                }
+                self.m.count("approve_many_ok");
+            }
+            Err((e, _)) => {
+                self.log.push(format!("  -> err {}", err_class(&e)));
+                match deny {
+                    Some(reason) => {
+                        self.m.count(&format!("approve_many_denied_{reason}"));
+                        self.nontrivial(&["approve_many_denied", reason]);
+                    }
+                    None => {
+                        self.m.count("note_unexpected_approve_many_failure");
+                        self.m.count(&format!("note_unexpected_approve_many_failure:{}", err_class(&e)));
+                    }
+                }
+            }
+        }
+        self.post_tx();
+    }
+
+    fn op_cancel(&mut self) {
+        let pick = if self.rng.chance(9, 10) { self.pick_where(|b| matches!(b.state, BState::Created | BState::Approved { .. })) } else { self.pick_where(|_| true) };
+        let Some(i) = pick else { return };
+        let address = self.bufs[i].key;
+        let i = *self.by_addr.get(&address).unwrap_or(&i);
+        let b = self.bufs[i].clone();
+        let caller = match self.rng.below(100) {
+            0..=84 => self.t.tl_admin,
+            85..=92 => self.t.tl_keeper,
+            _ => self.stranger,
+        };
+        let wrong_receiver = self.rng.chance(1, 14);
+        let rent_receiver = if wrong_receiver { self.stranger } else { b.creator };
+        let was_live = matches!(b.state, BState::Created | BState::Approved { .. });
+        self.log.push(format!("cancel buffer={address} caller={caller} rent_receiver={rent_receiver}"));
+        let ixn = tl_cancel_ix(caller, self.store, self.t.executors[b.exec], rent_receiver, address);
+        let r = self.w.send(&[ixn], &[caller]);
+        self.m.eval();
+        match r {
+            Ok(_) => {
+                self.log.push("  -> ok".into());
+                self.m.count("cancel_ok");
+                if matches!(b.state, BState::Approved { .. }) {
+                    self.m.count("cancel_ok_of_approved");
+                }
+                if !self.roles.holds(&caller, TIMELOCK_ADMIN) {
+                    self.m.count("note_cancel_ok_by_non_admin(out of scope: C19)");
+                }
+                self.bufs[i].state = BState::Cancelled;
+                // A cancelled buffer must not run: try right away.
+                self.execute(i, self.t.tl_keeper, ExecVariant::Normal, "probe_after_cancel");
+            }
+            Err((e, _)) => {
+                self.log.push(format!("  -> err {}", err_class(&e)));
+                if !was_live {
+                    self.m.count("cancel_denied_gone");
+                } else if !self.roles.holds(&caller, TIMELOCK_ADMIN) {
+                    self.m.count("cancel_denied_not_admin");
+                } else if wrong_receiver {
+                    self.m.count("cancel_denied_wrong_rent_receiver");
+                } else {
+                    self.m.count("note_unexpected_cancel_failure");
+                    self.m.count(&format!("note_unexpected_cancel_failure:{}", err_class(&e)));
+                }
+            }
+        }
+        self.post_tx();
+    }
+
+    fn op_cancel_many(&mut self) {
+        let live = self.live();
+        if live.len() < 2 {
+            return;
+        }
+        let first = live[self.rng.below(live.len() as u64) as usize];
+        let (fe, fc) = (self.bufs[first].exec, self.bufs[first].creator);
+        let mut chosen = vec![first];
+        if let Some(c) = self.pick_where(|b| b.exec == fe && b.creator == fc && matches!(b.state, BState::Created | BState::Approved { .. })) {
+            if c != first {
+                chosen.push(c);
+            }
+        }
+        if self.rng.chance(1, 4) {
+            if let Some(c) = self.pick_where(|_| true) {
+                let c = *self.by_addr.get(&self.bufs[c].key).unwrap_or(&c);
+                if !chosen.contains(&c) {
+                    chosen.push(c);
+                }
+            }
+        }
+        let caller = if self.rng.chance(9, 10) { self.t.tl_admin } else { self.t.tl_keeper };
+        let keys: Vec<Pubkey> = chosen.iter().map(|i| self.bufs[*i].key).collect();
+        let all_ok = chosen.iter().all(|i| {
+            let b = &self.bufs[*i];
+            matches!(b.state, BState::Created | BState::Approved { .. }) && b.exec == fe && b.creator == fc
+        });
+        self.log.push(format!("cancel_many buffers={keys:?} caller={caller}"));
+        let ixn = tl_cancel_many_ix(caller, self.store, self.t.executors[fe], fc, &keys);
+        let r = self.w.send(&[ixn], &[caller]);
+        self.m.eval();
+        match r {
+            Ok(_) => {
+                self.log.push("  -> ok".into());
+                self.m.count("cancel_many_ok");
+                for i in chosen {
+                    self.m.count("cancel_ok");
+                    self.bufs[i].state = BState::Cancelled;
+                    self.execute(i, self.t.tl_keeper, ExecVariant::Normal, "probe_after_cancel");
+                }
+            }
+            Err((e, _)) => {
+                self.log.push(format!("  -> err {}", err_class(&e)));
+                if !self.roles.holds(&caller, TIMELOCK_ADMIN) {
+                    self.m.count("cancel_many_denied_not_admin");
+                } else if !all_ok {
+                    self.m.count("cancel_many_denied_mixed_batch");
+                } else {
+                    self.m.count("note_unexpected_cancel_many_failure");
+                    self.m.count(&format!("note_unexpected_cancel_many_failure:{}", err_class(&e)));
+                }
+            }
+        }
+        self.post_tx();
+    }
+
+    /// The CPIs issued by the timelock program itself in this transaction, without the leading
+    /// access-control `check_role` call.
+    fn timelock_cpis<'m>(meta: &'m TxMeta) -> Vec<&'m hostsvm::CpiRecord> {
+        let mut top: Vec<&hostsvm::CpiRecord> = meta.cpis.iter().filter(|c| c.caller == TL_PID && c.depth == 1).collect();
+        if let Some(f) = top.first() {
+            if f.program_id == STORE_PID && f.data == check_role_data(TIMELOCK_KEEPER) && f.accounts.len() == 2 {
+                top.remove(0);
+            }
+        }
+        top
+    }
+
+    fn check_cpi(&mut self, meta: &TxMeta, b: &Buf) {
+        let wallet = self.t.wallets[b.exec];
+        let top = Self::timelock_cpis(meta);
+        let observed: Vec<Value> = top
+            .iter()
+            .map(|c| {
+                let mut v = ix_json(&Instruction { program_id: c.program_id, accounts: c.accounts.clone(), data: c.data.clone() });
+                v["pda_signers"] = json!(c.pda_signers.iter().map(|k| k.to_string()).collect::<Vec<_>>());
+                v
+            })
+            .collect();
+        let detail = |what: &str| json!({"buffer": b.key.to_string(), "what": what, "buffered": ix_json(&b.expected), "observed_cpis": observed, "wallet": wallet.to_string(), "shape": b.shape});
+        if top.len() != 1 {
+            self.violation("C36:execute:cpi_count", detail("expected exactly one CPI of the buffered instruction"));
+            return;
+        }
+        let c = top[0];
+        if c.program_id != b.expected.program_id {
+            self.violation("C36:execute:cpi_program_differs", detail("program id"));
+        }
+        if c.data != b.expected.data {
+            self.violation("C36:execute:cpi_data_differs", detail("data"));
+        }
+        if c.accounts.len() != b.expected.accounts.len() || c.accounts.iter().zip(b.expected.accounts.iter()).any(|(x, y)| x.pubkey != y.pubkey) {
+            self.violation("C36:execute:cpi_account_list_differs", detail("account list"));
+        } else if c.accounts.iter().zip(b.expected.accounts.iter()).any(|(x, y)| x.is_signer != y.is_signer || x.is_writable != y.is_writable) {
+            self.violation("C36:execute:cpi_flags_differ", detail("signer/writable flags"));
+        }
+        if c.accounts.iter().any(|m| m.is_signer && m.pubkey != wallet) || c.pda_signers.iter().any(|k| *k != wallet) {
+            self.violation("C36:execute:non_wallet_signer", detail("a signer other than the executor wallet"));
+        }
+    }
+
+    fn execute(&mut self, i: usize, caller: Pubkey, variant: ExecVariant, why: &str) {
+        let b = self.bufs[i].clone();
+        let role = self.role_of(b.exec);
+        let tld = self.tld(b.exec);
+        let mut a = ExecuteAccounts {
+            authority: caller,
+            store: self.store,
+            timelock_config: self.t.timelock_config,
+            executor: self.t.executors[b.exec],
+            wallet: self.t.wallets[b.exec],
+            rent_receiver: b.creator,
+            buffer: b.key,
+        };
+        let mut remaining = b.expected.accounts.clone();
+        // The callee program account must be part of the transaction (the store program already is).
+        if b.expected.program_id != STORE_PID && b.expected.program_id != system_program::ID {
+            remaining.push(AccountMeta::new_readonly(b.expected.program_id, false));
+        }
+        match variant {
+            ExecVariant::Normal => {}
+            ExecVariant::AltConfig => a.timelock_config = self.alt.timelock_config,
+            ExecVariant::AltStore => {
+                a.store = self.alt_store;
+                a.timelock_config = self.alt.timelock_config;
+            }
+            ExecVariant::WrongExecutor => {
+                let o = (b.exec + 1) % EXEC_ROLES.len();
+                a.executor = self.t.executors[o];
+                a.wallet = self.t.wallets[o];
+            }
+            ExecVariant::WrongRentReceiver => a.rent_receiver = self.stranger,
+            ExecVariant::MissingRemaining => {
+                remaining.clear();
+            }
+        }
+        let now = self.now();
+        let delay = self.delay_seen;
+        // Model verdict (program's comparison: now >= approved_at.saturating_add_unsigned(delay)).
+        let (gone, not_approved, lost, early, boundary) = match b.state {
+            BState::Executed => (Some("executed"), false, false, false, 0i128),
+            BState::Cancelled => (Some("cancelled"), false, false, false, 0),
+            BState::Created => (None, true, false, false, 0),
+            BState::Approved { at, by } => {
+                let executable_at = (at as i128 + delay as i128).min(i64::MAX as i128);
+                (None, false, !self.roles.holds(&by, &tld), (now as i128) < executable_at, executable_at)
+            }
+        };
+        let bclass = if matches!(b.state, BState::Approved { .. }) {
+            if now as i128 == boundary {
+                "exact"
+            } else if now as i128 == boundary - 1 {
+                "one_early"
+            } else if (now as i128) < boundary {
+                "early"
+            } else {
+                "late"
+            }
+        } else {
+            "-"
+        };
+        self.log.push(format!(
+            "execute[{why}] buffer={} role={role} caller={caller} variant={variant:?} now={now} delay={delay} state={:?}",
+            b.key, b.state
+        ));
+        let ixn = tl_execute_ix(&a, &remaining);
+        let r = self.w.send(&[ixn], &[caller]);
+        self.m.eval();
+        match r {
+            Ok(meta) => {
+                self.log.push("  -> ok".into());
+                let d = json!({"buffer": b.key.to_string(), "state": format!("{:?}", b.state), "now": now, "delay": delay, "variant": format!("{variant:?}"), "needed_role": tld, "shape": b.shape});
+                let mut bad = false;
+                if let Some(g) = gone {
+                    bad = true;
+                    self.violation(&format!("C36:execute:{g}_buffer_ran_again"), d.clone());
+                }
+                if not_approved {
+                    bad = true;
+                    self.violation("C36:execute:not_approved", d.clone());
+                }
+                if lost {
+                    bad = true;
+                    self.violation("C36:execute:approver_lost_role", d.clone());
+                }
+                if early {
+                    bad = true;
+                    self.violation("C36:execute:before_delay", d.clone());
+                }
+                self.check_cpi(&meta, &b);
+                if !self.roles.holds(&caller, TIMELOCK_KEEPER) {
+                    self.m.count("note_execute_ok_by_non_keeper(out of scope: C19)");
+                }
+                if !bad {
+                    self.m.count("exec_ok");
+                    self.m.count(&format!("shape_executed:{}", b.shape));
+                    if bclass == "exact" {
+                        self.m.count("exec_ok_exactly_at_boundary");
+                    }
+                    if b.lost_role_since_approve {
+                        self.m.count("exec_ok_after_role_lost_and_regained");
+                    }
+                    if variant != ExecVariant::Normal {
+                        self.m.count(&format!("note_exec_ok_with_variant_{variant:?}"));
+                    }
+                    self.nontrivial(&["exec_ok", &b.shape, bclass, if b.lost_role_since_approve { "regrant" } else { "" }]);
+                }
+                self.bufs[i].state = BState::Executed;
+                let eff = b.effect.clone();
+                self.apply_effect(&eff);
+                self.post_tx();
+                // An executed buffer must not run again: retry the very same transaction.
+                if why != "probe_after_execute" {
+                    self.execute(i, caller, ExecVariant::Normal, "probe_after_execute");
+                }
+            }
+            Err((e, meta)) => {
+                let ec = err_class(&e);
+                self.log.push(format!("  -> err {ec}"));
+                let reason: Option<String> = if let Some(g) = gone {
+                    Some(format!("already_{g}"))
+                } else if not_approved {
+                    Some("not_approved".into())
+                } else if lost {
+                    Some("approver_lost_role".into())
+                } else if early {
+                    Some("too_early".into())
+                } else {
+                    None
+                };
+                match reason {
+                    Some(reason) => {
+                        self.m.count(&format!("exec_denied_{reason}"));
+                        if lost && early {
+                            self.m.count("exec_denied_lost_role_and_too_early");
+                        }
+                        if reason == "too_early" && bclass == "one_early" {
+                            self.m.count("exec_denied_one_second_early");
+                        }
+                        if variant != ExecVariant::Normal {
+                            self.m.count(&format!("exec_denied_with_variant_{variant:?}"));
+                        }
+                        self.nontrivial(&["exec_denied", &reason, bclass, &format!("{variant:?}"), b.shape.split('+').next().unwrap_or("")]);
+                    }
+                    None => {
+                        // The model allows this execution.
+                        let issued = !Self::timelock_cpis(&meta).is_empty();
+                        if !self.roles.holds(&caller, TIMELOCK_KEEPER) {
+                            self.m.count("exec_denied_caller_not_keeper");
+                        } else if variant != ExecVariant::Normal {
+                            self.m.count(&format!("exec_denied_substituted_accounts_{variant:?}"));
+                        } else if issued {
+                            self.m.count("exec_failed_inner_instruction");
+                            self.m.count(&format!("exec_failed_inner:{}:{}", b.shape.split('+').next().unwrap_or(""), ec));
+                        } else {
+                            self.m.count("note_unexpected_exec_denial");
+                            self.m.count(&format!("note_unexpected_exec_denial:{ec}"));
+                            if self.m.wants_sample() {
+                                let s = self.witness(json!({"unexpected_exec_denial": ec, "shape": b.shape}));
+                                self.m.sample(s);
+                            }
+                        }
+                    }
+                }
+                self.post_tx();
+            }
+        }
+    }
+
+    fn op_execute(&mut self) {
+        let c = self.rng.below(100);
+        let pick = if c < 68 {
+            self.pick_where(|b| matches!(b.state, BState::Approved { .. }))
+        } else if c < 84 {
+            self.pick_where(|b| b.state == BState::Created)
+        } else {
+            self.pick_where(|b| matches!(b.state, BState::Executed | BState::Cancelled))
+        };
+        let Some(i) = pick.or_else(|| self.pick_where(|_| true)) else { return };
+        // If the address was re-used by a newer buffer, the old entry is shadowed: use the newest.
+        let i = *self.by_addr.get(&self.bufs[i].key).unwrap_or(&i);
+        let caller = match self.rng.below(100) {
+            0..=83 => self.t.tl_keeper,
+            84..=90 => self.t.tl_admin,
+            91..=95 => self.stranger,
+            _ => *self.rng.pick(&self.approvers.clone()),
+        };
+        let variant = match self.rng.below(100) {
+            0..=77 => ExecVariant::Normal,
+            78..=84 => ExecVariant::AltConfig,
+            85..=89 => ExecVariant::AltStore,
+            90..=93 => ExecVariant::WrongExecutor,
+            94..=96 => ExecVariant::WrongRentReceiver,
+            _ => ExecVariant::MissingRemaining,
+        };
+        self.execute(i, caller, variant, "op");
+    }
+
+    fn op_increase_delay(&mut self) {
+        let caller = match self.rng.below(100) {
+            0..=84 => self.t.tl_admin,
+            85..=92 => self.t.tl_keeper,
+            _ => self.stranger,
+        };
+        let delta: u32 = match self.rng.below(100) {
+            0..=5 => 0,
+            6..=75 => self.rng.range(1, 20) as u32,
+            76..=95 => self.rng.range(21, 600) as u32,
+            _ => self.rng.range(601, 100_000) as u32,
+        };
+        self.increase_delay(caller, delta);
+    }
+
+    fn increase_delay(&mut self, caller: Pubkey, delta: u32) {
+        let before = self.delay_seen;
+        self.log.push(format!("increase_delay caller={caller} delta={delta} before={before}"));
+        let ixn = tl_increase_delay_ix(caller, self.store, self.t.timelock_config, delta);
+        let r = self.w.send(&[ixn], &[caller]);
+        self.m.eval();
+        match r {
+            Ok(_) => {
+                self.log.push("  -> ok".into());
+                self.post_tx();
+                self.m.count("delay_increase_ok");
+                if self.delay_seen > before {
+                    self.m.count("delay_strictly_increased");
+                    self.nontrivial(&["delay_increase", if delta < 21 { "small" } else if delta < 601 { "mid" } else { "big" }]);
+                } else {
+                    self.m.count("note_increase_delay_ok_without_increase");
+                }
+                if self.delay_seen as u64 != before as u64 + delta as u64 {
+                    self.m.count("note_delay_not_old_plus_delta");
+                }
+                if !self.roles.holds(&caller, TIMELOCK_ADMIN) {
+                    self.m.count("note_increase_delay_ok_by_non_admin(out of scope: C19)");
+                }
+            }
+            Err((e, _)) => {
+                self.log.push(format!("  -> err {}", err_class(&e)));
+                self.post_tx();
+                if delta == 0 {
+                    self.m.count("delay_increase_rejected_zero");
+                } else if before as u64 + delta as u64 > u32::MAX as u64 {
+                    self.m.count("delay_increase_rejected_overflow");
+                    self.nontrivial(&["delay_overflow_rejected"]);
+                } else if !self.roles.holds(&caller, TIMELOCK_ADMIN) {
+                    self.m.count("delay_increase_denied_not_admin");
+                } else {
+                    self.m.count("note_unexpected_increase_delay_failure");
+                }
+            }
+        }
+    }
+
+    fn tld_roles(&self) -> Vec<String> {
+        (0..EXEC_ROLES.len()).map(|e| self.tld(e)).collect()
+    }
+
+    fn op_role(&mut self) {
+        let admin = self.w.admin;
+        let store = self.store;
+        if self.mode_b {
+            // The store admin changes roles directly through the store's real instructions.
+            let roles = self.tld_roles();
+            let c = self.rng.below(100);
+            if c < 78 {
+                let mut users = self.approvers.clone();
+                users.push(self.t.tl_admin);
+                // Prefer touching the approver of an approved buffer.
+                let approved: Vec<(Pubkey, String)> = self
+                    .bufs
+                    .iter()
+                    .filter_map(|b| if let BState::Approved { by, .. } = b.state { Some((by, timelocked_role(EXEC_ROLES[b.exec]))) } else { None })
+                    .collect();
+                let (user, role) = if !approved.is_empty() && self.rng.chance(1, 2) {
+                    approved[self.rng.below(approved.len() as u64) as usize].clone()
+                } else {
+                    (*self.rng.pick(&users), self.rng.pick(&roles).clone())
+                };
+                let has = self.roles.grants.contains(&(user, role.clone()));
+                let do_revoke = has != self.rng.chance(1, 10);
+                let (ixn, eff, name) = if do_revoke {
+                    (revoke_role_ix(admin, store, user, &role), Effect::Revoke(user, role.clone()), "revoke")
+                } else {
+                    (grant_role_ix(admin, store, user, &role), Effect::Grant(user, role.clone()), "grant")
+                };
+                self.log.push(format!("role {name} user={user} role={role} (direct, by store admin)"));
+                match self.w.send(&[ixn], &[admin]) {
+                    Ok(_) => {
+                        self.log.push("  -> ok".into());
+                        self.m.count(&format!("role_{name}_ok"));
+                        self.apply_effect(&eff);
+                    }
+                    Err((e, _)) => {
+                        self.log.push(format!("  -> err {}", err_class(&e)));
+                        self.m.count(&format!("role_{name}_refused"));
+                    }
+                }
+            } else if c < 94 {
+                let role = self.rng.pick(&roles).clone();
+                let enabled = self.roles.enabled.contains(&role);
+                let (ixn, eff, name) = if enabled {
+                    (disable_role_ix(admin, store, &role), Effect::Disable(role.clone()), "disable")
+                } else {
+                    (enable_role_ix(admin, store, &role), Effect::Enable(role.clone()), "enable")
+                };
+                self.log.push(format!("role {name} role={role} (direct, by store admin)"));
+                match self.w.send(&[ixn], &[admin]) {
+                    Ok(_) => {
+                        self.log.push("  -> ok".into());
+                        self.m.count(&format!("role_{name}_ok"));
+                        self.apply_effect(&eff);
+                    }
+                    Err((e, _)) => {
+                        self.log.push(format!("  -> err {}", err_class(&e)));
+                        self.m.count(&format!("role_{name}_refused"));
+                    }
+                }
+            } else {
+                // TIMELOCK_KEEPER of the keeper flips.
+                let user = self.t.tl_keeper;
+                let has = self.roles.grants.contains(&(user, TIMELOCK_KEEPER.to_string()));
+                let (ixn, eff, name) = if has {
+                    (revoke_role_ix(admin, store, user, TIMELOCK_KEEPER), Effect::Revoke(user, TIMELOCK_KEEPER.into()), "revoke_keeper")
+                } else {
+                    (grant_role_ix(admin, store, user, TIMELOCK_KEEPER), Effect::Grant(user, TIMELOCK_KEEPER.into()), "grant_keeper")
+                };
+                self.log.push(format!("role {name} user={user} (direct, by store admin)"));
+                if self.w.send(&[ixn], &[admin]).is_ok() {
+                    self.log.push("  -> ok".into());
+                    self.m.count(&format!("role_{name}_ok"));
+                    self.apply_effect(&eff);
+                }
+            }
+        } else {
+            // Mode A: only the timelock can change roles. Immediate path: the bypass `revoke_role`.
+            let mut held: Vec<(Pubkey, String)> = self.roles.grants.iter().filter(|(u, r)| r.starts_with(TIMELOCKED_PREFIX) && *u != self.t.tl_admin).cloned().collect();
+            let approved: Vec<(Pubkey, String)> = self
+                .bufs
+                .iter()
+                .filter_map(|b| if let BState::Approved { by, .. } = b.state { Some((by, timelocked_role(EXEC_ROLES[b.exec]))) } else { None })
+                .filter(|(u, _)| *u != self.t.tl_admin)
+                .collect();
+            if !approved.is_empty() && self.rng.chance(1, 2) {
+                held = approved;
+            }
+            if held.is_empty() {
+                return;
+            }
+            let (user, role) = held[self.rng.below(held.len() as u64) as usize].clone();
+            let caller = if self.rng.chance(9, 10) { self.t.tl_admin } else { self.anyone() };
+            self.log.push(format!("bypass_revoke_role caller={caller} user={user} role={role}"));
+            let ixn = tl_bypass_revoke_role_ix(caller, store, user, &role);
+            match self.w.send(&[ixn], &[caller]) {
+                Ok(_) => {
+                    self.log.push("  -> ok".into());
+                    self.m.count("role_bypass_revoke_ok");
+                    self.apply_effect(&Effect::Revoke(user, role));
+                }
+                Err((e, _)) => {
+                    self.log.push(format!("  -> err {}", err_class(&e)));
+                    self.m.count("role_bypass_revoke_refused");
+                }
+            }
+        }
+        self.post_tx();
+    }
+
+    fn op_warp(&mut self) {
+        let now = self.now();
+        let delay = self.delay_seen as i64;
+        let targets: Vec<i64> = self.bufs.iter().filter_map(|b| if let BState::Approved { at, .. } = b.state { Some(at.saturating_add(delay)) } else { None }).filter(|t| *t > now).collect();
+        let secs = match self.rng.below(100) {
+            0..=29 if !targets.is_empty() => {
+                let t = *self.rng.pick(&targets);
+                (t - 1 - now).max(0)
+            }
+            30..=59 if !targets.is_empty() => *self.rng.pick(&targets) - now,
+            60..=79 => self.rng.range(1, (delay as u64 / 2).max(2)) as i64,
+            80..=89 => 1,
+            _ => delay + self.rng.range(0, 30) as i64,
+        };
+        if secs <= 0 {
+            return;
+        }
+        self.w.svm.warp(secs);
+        self.m.count("clock_warps");
+        self.log.push(format!("warp +{secs} -> now={}", self.now()));
+    }
+
+    fn step(&mut self) {
+        let live = self.live().len();
+        let w_create = if live >= MAX_LIVE { 0 } else if live < 3 { 30 } else { 16 };
+        match self.rng.weighted(&[w_create, 18, 4, 5, 2, 27, 4, 10, 13]) {
+            0 => self.op_create(),
+            1 => self.op_approve(),
+            2 => self.op_approve_many(),
+            3 => self.op_cancel(),
+            4 => self.op_cancel_many(),
+            5 => self.op_execute(),
+            6 => self.op_increase_delay(),
+            7 => self.op_role(),
+            _ => self.op_warp(),
+        }
+    }
+
+    /// End of history: every live buffer is tried now and after the delay; then the delay setters are
+    /// probed at the u32 boundary and the config is re-initialised (must be refused).
+    fn finale(&mut self) {
+        for i in self.live() {
+            self.execute(i, self.t.tl_keeper, ExecVariant::Normal, "finale");
+        }
+        self.w.svm.warp(self.delay_seen as i64);
+        self.log.push(format!("warp +delay -> now={}", self.now()));
+        for i in self.live() {
+            let caller = if self.roles.holds(&self.t.tl_keeper, TIMELOCK_KEEPER) { self.t.tl_keeper } else { self.t.tl_admin };
+            self.execute(i, caller, ExecVariant::Normal, "finale_after_delay");
+        }
+        if self.rng.chance(1, 2) {
+            // Overflowing increase must be refused (a wrapped delay would be smaller).
+            let d = self.delay_seen;
+            if d > 0 {
+                self.increase_delay(self.t.tl_admin, u32::MAX - d + 1);
+            }
+            if self.rng.chance(1, 2) {
+                self.increase_delay(self.t.tl_admin, u32::MAX - self.delay_seen);
+                self.increase_delay(self.t.tl_admin, 1);
+            }
+        }
+        // Re-initialising the config with a smaller delay must be refused.
+        let ixn = tl_initialize_config_ix(self.t.tl_admin, self.store, 0);
+        self.log.push("re-initialize_config delay=0".into());
+        self.m.eval();
+        match self.w.send(&[ixn], &[self.t.tl_admin]) {
+            Ok(_) => {
+                self.log.push("  -> ok".into());
+                self.m.count("note_reinitialize_config_ok");
+            }
+            Err(_) => {
+                self.m.count("reinitialize_config_refused");
+            }
+        }
+        self.post_tx();
+    }
+}
+
+fn run_history(seed: u64, shard: u64, hist: u64, n_ops: u64, m: &mut Monitor) {
+    let mut rng = Rng::derive(seed, shard, hist);
+    let mode_b = rng.chance(1, 2);
+    let delay0: u32 = *rng.pick(&[0u32, 0, 1, 2, 5, 10, 30, 60, 300, 3600]);
+    let mut w = World::bootstrap_store();
+    let store = w.store;
+    let approvers: Vec<Pubkey> = (0..3).map(|i| key(&format!("c36:approver:{i}"))).collect();
+    let stranger = key("c36:stranger");
+    for u in approvers.iter().chain([&stranger]) {
+        w.svm.airdrop(u, 1_000 * LAMPORTS);
+    }
+    // Initial approver roles.
+    let mut pre: Vec<(Pubkey, String)> = vec![];
+    for (e, role) in EXEC_ROLES.iter().enumerate() {
+        let tld = timelocked_role(role);
+        let mut any = false;
+        for a in &approvers {
+            if rng.chance(1, 2) {
+                pre.push((*a, tld.clone()));
+                any = true;
+            }
+        }
+        if !any && e != 0 {
+            pre.push((approvers[e % approvers.len()], tld.clone()));
+        }
+    }
+    let t = w.bootstrap_timelock(store, &EXEC_ROLES, delay0, "main", &pre);
+    // A second store with its own timelock (delay 0): material for substituted-account attacks.
+    let alt_store = pda::find_store_address("alt", &STORE_PID).0;
+    let admin = w.admin;
+    w.must(
+        "initialize alt store",
+        &[world::six(
+            gmsol_store::accounts::Initialize { payer: admin, authority: None, receiver: None, holding: None, store: alt_store, system_program: system_program::ID },
+            gmsol_store::instruction::Initialize { key: "alt".to_string() },
+        )],
+        &[admin],
+    );
+    let alt = w.bootstrap_timelock(alt_store, &["ADMIN"], 0, "main", &[]);
+    if mode_b {
+        w.tl_restore_admin_authority(store, &t, delay0, "main");
+    }
+    let mut roles = RoleModel::default();
+    for r in [TIMELOCK_ADMIN, TIMELOCK_KEEPER] {
+        roles.enabled.insert(r.to_string());
+    }
+    for r in EXEC_ROLES {
+        roles.enabled.insert(timelocked_role(r));
+    }
+    roles.grants.insert((t.tl_admin, TIMELOCK_ADMIN.into()));
+    roles.grants.insert((t.tl_admin, TIMELOCK_KEEPER.into()));
+    roles.grants.insert((t.tl_admin, timelocked_role("ADMIN")));
+    roles.grants.insert((t.tl_keeper, TIMELOCK_KEEPER.into()));
+    for (u, r) in &pre {
+        roles.grants.insert((*u, r.clone()));
+    }
+    let mut h = Hist {
+        w,
+        t,
+        store,
+        alt_store,
+        alt,
+        mode_b,
+        roles,
+        bufs: vec![],
+        by_addr: BTreeMap::new(),
+        delay_seen: delay0,
+        approvers,
+        stranger,
+        log: vec![format!("bootstrap mode={} delay0={delay0} pre_grants={}", if mode_b { "B" } else { "A" }, pre.len())],
+        rng,
+        m,
+        ident: (seed, shard, hist),
+        n_addr: 0,
+        shape_hashes: BTreeSet::new(),
+        broken: false,
+    };
+    h.post_tx();
+    h.cross_check_roles();
+    if mode_b {
+        match store_is_authority(&h.w.svm, &store, &admin) {
+            Some(true) => {}
+            _ => {
+                h.m.inconclusive("harness: mode B bootstrap did not restore the admin authority");
+                return;
+            }
+        }
+    }
+    for _ in 0..n_ops {
+        if h.broken {
+            break;
+        }
+        h.step();
+    }
+    if !h.broken {
+        h.finale();
+    }
+    h.m.count("histories");
+    h.m.count(if mode_b { "histories_mode_B" } else { "histories_mode_A" });
+    let n = h.shape_hashes.len() as u64;
+    h.m.add("distinct_instruction_shapes(sum over histories)", n);
+    h.m.max("max_distinct_instruction_shapes_in_one_history", n);
+    h.m.max("max_delay_reached", h.delay_seen as u64);
+    if h.m.wants_sample() && hist == 0 && shard < 3 {
+        let tail = h.log.len().saturating_sub(40);
+        let s = json!({"shard": shard, "history": hist, "mode": if mode_b {"B"} else {"A"}, "delay0": delay0, "ops": h.log.len(), "log_tail": h.log[tail..].to_vec()});
+        h.m.sample(s);
+    }
+}
+
+pub fn run(args: &Args) -> Option<i32> {
+    let mut mon = Monitor::new(args, RULE);
+    let q = hostsvm::QuietStdout::new();
+    let only_shard: Option<u64> = args.extra.get("shard").and_then(|s| s.parse().ok());
+    let only_hist: Option<u64> = args.extra.get("history").and_then(|s| s.parse().ok());
+    let n_shards = args.scale(64, 256);
+    let per_shard = args.scale(24, 64);
+    let n_ops = args.scale(140, 180);
+    let seed = args.seed;
+    vcommon::monitor::run_shards(&mut mon, args.threads, n_shards, |shard, m| {
+        if only_shard.is_some_and(|s| s != shard) {
+            return;
+        }
+        for hist in 0..per_shard {
+            if only_hist.is_some_and(|h| h != hist) {
+                continue;
+            }
+            if let Err(p) = vcommon::monitor::guard(|| run_history(seed, shard, hist, n_ops, m)) {
+                m.count("harness_panics");
+                m.inconclusive(&format!("harness: history (shard {shard}, #{hist}) aborted: {p}"));
+            }
+        }
+    });
+    drop(q);
+    if only_shard.is_none() && only_hist.is_none() {
+        mon.require("histories", n_shards * per_shard);
+        mon.require("exec_ok", 2_000);
+        mon.require("exec_ok_exactly_at_boundary", 100);
+        mon.require("exec_denied_one_second_early", 100);
+        mon.require("exec_denied_too_early", 500);
+        mon.require("exec_denied_not_approved", 500);
+        mon.require("exec_denied_approver_lost_role", 200);
+        mon.require("exec_denied_already_executed", 500);
+        mon.require("exec_denied_already_cancelled", 200);
+        mon.require("exec_ok_after_role_lost_and_regained", 20);
+        mon.require("approve_ok", 2_000);
+        mon.require("approve_denied_already_approved", 200);
+        mon.require("approve_denied_approver_without_role", 200);
+        mon.require("create_rejected_foreign_signer", 200);
+        mon.require("cancel_ok", 300);
+        mon.require("role_revocations_between_approve_and_execute", 200);
+        mon.require("delay_strictly_increased", 300);
+        mon.require("delay_increase_rejected_overflow", 20);
+        mon.require("reinitialize_config_refused", 100);
+    }
+    mon.assume("no cluster restart: LastRestartSlot stays at the store's recorded value (under a restart the store defines RESTART_ADMIN holders as holding every role)");
+    mon.assume("\"holds the role\" = the role is enabled in the store and granted to the address (gmsol_store RoleStore::has_role); the harness role model is cross-checked against the store account after every role change");
+    mon.assume("\"what was buffered\" = program id, data and account list submitted to create_instruction_buffer, with writable flags as the create transaction's message carries them (an account writable anywhere in that transaction, e.g. the fee payer, is writable)");
+    mon.assume("the clock only moves forward (svm.warp); timestamps stay far from i64 saturation");
+    mon.assume("hostsvm models CPI privilege rules; compute/heap limits are not modelled");
+    Some(mon.finish())
 }
